@@ -1,5 +1,6 @@
 """C15 — shm allocators: disjoint, aligned, in-bounds memory; offsets; resize hints."""
 import core
+import pC15resize
 
 
 def classify(case, idx, impl_out, model_out):
@@ -50,6 +51,8 @@ def run(ctx):
         quick = ctx.tier == "quick"
         core.diff_component(ctx, "alloc", ["gen", "--exhaustive", 24 if quick else 64], classify, label="alloc.layout-sweep")
         core.diff_component(ctx, "alloc", ["gen", "--seed", ctx.seed, "--cases", 3000 if quick else 40000, "--len", 30 if quick else 80], classify, label="alloc.random")
+        # dynamically growing segments (memory owner + views): real DynamicMemory / DynamicView vs the ResizeMem model
+        pC15resize.resize_part(ctx)
         # the bump allocator's CAS loop under concurrency: atomic-step traces against the L2 model
         okt, log = core.build_trace(ctx)
         if not okt:
@@ -65,6 +68,6 @@ def run(ctx):
              "buckets, memory smaller than the alignment padding, requests with size 0..3*bucket and alignment up to 4096; bump allocator and PointerOffset packing "
              "cases. Every returned address is compared with the Lean model and independently checked by the harness (aligned to the request, inside the managed "
              "memory, not overlapping a live allocation, writable). distinct = distinct output vectors of cases with > 2 ops",
-        extra_assumptions=["usize arithmetic modelled in Nat (no overflow for the sizes iceoryx2 can map)",
+        extra_assumptions=list(getattr(pC15resize, "ASSUMPTIONS", [])) + ["dynamically growing segments: " + str(getattr(pC15resize, "RULE", ""))[:600], "usize arithmetic modelled in Nat (no overflow for the sizes iceoryx2 can map)",
                            "the free-index order of UniqueIndexSet under a single thread is a stack (its concurrent behaviour is C09)",
-                           "growth of dynamic data segments at port level is exercised by the C02/C01 checks, not here"])
+                           "growth of dynamic data segments at PORT level (slice loans through publishers) is not driven; the cal-level DynamicMemory/DynamicView are"])
